@@ -36,10 +36,17 @@ type Raw struct {
 var subRaw = ev.Register("raw-exchanges",
 	"byte-level exchanges through a real proxy: generated request lines (methods, absolute / origin / asterisk / authority forms, versions), Host values, header blocks (Range, If-Range, Cache-Control, conditionals, duplicates, oversized and malformed fields, bodies with Content-Length or chunked framing) plain and inside a CONNECT tunnel (valid and invalid CONNECT targets), against a raw-socket origin returning generated status lines, header sets and framings (malformed, truncated, duplicated Content-Length, bad chunks); oracle: the handler never panics, and every request that reached the proxy handler is answered by a parseable status line and header block before the connection ends; a body may only fail to satisfy its framing when the origin's own answer was malformed or cut short; non-trivial = the request reached the proxy handler; distinct by exchange",
 	func(c Raw, o *ev.Obs) *ev.Failure {
-		goodOrigin := c.Origin == ""
+		goodOrigin := c.Origin == "" || c.Origin == "@416-unless-plain@"
 		org := origin.NewRaw(func(r *http.Request, _ []byte, e *origin.Entry) origin.RawResponse {
-			if goodOrigin || r.Header.Get("X-Verif-Req") == "prime" {
+			if c.Origin == "" || r.Header.Get("X-Verif-Req") == "prime" {
 				return origin.RawResponse{Status: 200, Headers: []origin.HV{{K: "Cache-Control", V: "max-age=60"}, {K: "ETag", V: `"x"`}}, Body: []byte("0123456789")}
+			}
+			if c.Origin == "@416-unless-plain@" {
+				// range-hostile origin: 416 to every Range request, a cacheable 200 to the retry without Range
+				if r.Header.Get("Range") != "" {
+					return origin.RawResponse{Status: 416, Headers: []origin.HV{{K: "Content-Range", V: "bytes */10"}}, Body: []byte("nope")}
+				}
+				return origin.RawResponse{Status: 200, Headers: []origin.HV{{K: "Cache-Control", V: "max-age=60"}}, Body: []byte("0123456789")}
 			}
 			return origin.RawResponse{Raw: []byte(c.Origin)}
 		})
@@ -151,7 +158,7 @@ var hdrBlocks = []string{"", "Range: bytes=0-3\r\n", "Range: bytes=\r\n", "Range
 
 var bodies = []string{"", "", "", "abc", "3\r\nabc\r\n0\r\n\r\n", "zz\r\n", "5\r\nab"}
 
-var originAnswers = []string{"", "", "", "HTTP/1.1 200 OK\r\nContent-Length: 3\r\n\r\nabc", "HTTP/1.1 200 OK\r\nContent-Length: 10\r\n\r\nabc", "HTTP/1.1 200 OK\r\nContent-Length: -5\r\n\r\nabc", "HTTP/1.1 200 OK\r\nContent-Length: 3\r\nContent-Length: 4\r\n\r\nabc",
+var originAnswers = []string{"", "", "", "@416-unless-plain@", "@416-unless-plain@", "HTTP/1.1 200 OK\r\nContent-Length: 3\r\n\r\nabc", "HTTP/1.1 200 OK\r\nContent-Length: 10\r\n\r\nabc", "HTTP/1.1 200 OK\r\nContent-Length: -5\r\n\r\nabc", "HTTP/1.1 200 OK\r\nContent-Length: 3\r\nContent-Length: 4\r\n\r\nabc",
 	"HTTP/1.1 200 OK\r\nTransfer-Encoding: chunked\r\n\r\nzz\r\nabc\r\n0\r\n\r\n", "HTTP/1.1 200 OK\r\nTransfer-Encoding: chunked\r\n\r\n3\r\nabc\r\n", "HTTP/1.1 200\r\n\r\n", "HTTP/1.1 999 Weird\r\nContent-Length: 0\r\n\r\n",
 	"HTTP/1.1 20 Short\r\n\r\n", "HTTP/9.9 200 OK\r\n\r\n", "garbage\r\n\r\n", "", "HTTP/1.1 200 OK\r\nBad Header\r\n\r\n", "HTTP/1.1 200 OK\r\nCache-Control: max-age=60\r\nContent-Length: 0\r\n\r\n", "HTTP/1.1 304 Not Modified\r\n\r\n",
 	"HTTP/1.1 206 Partial Content\r\nContent-Range: bytes 5-2/3\r\nContent-Length: 3\r\n\r\nabc", "HTTP/1.1 416 Range Not Satisfiable\r\nContent-Length: 0\r\n\r\n", "HTTP/1.1 100 Continue\r\n\r\nHTTP/1.1 200 OK\r\nContent-Length: 2\r\n\r\nok",
@@ -171,6 +178,16 @@ func TestRawExchanges(t *testing.T) {
 			Origin:    rapid.SampledFrom(originAnswers).Draw(t, "origin"),
 			Connect:   rapid.SampledFrom(connectTargets).Draw(t, "connect"),
 			Prime:     rapid.Bool().Draw(t, "prime"),
+		}
+		if rapid.IntRange(0, 3).Draw(t, "well-formed") == 0 {
+			// a quarter of the exchanges are well-formed Range/conditional requests, so that hostile ORIGIN answers
+			// (416, malformed framing, odd status lines) meet the deeper request paths and not only net/http's 400s
+			c.Line = rapid.SampledFrom([]string{"GET http://@/r HTTP/1.1", "GET http://@/r HTTP/1.1", "HEAD http://@/r HTTP/1.1", "GET http://@/r?x=1 HTTP/1.0"}).Draw(t, "wf-line")
+			c.HostHdr = "@"
+			c.Headers = rapid.SampledFrom([]string{"Range: bytes=0-3\r\n", "Range: bytes=2-\r\n", "Range: bytes=-4\r\n", "Range: bytes=50-60\r\n", "Range: bytes=0-3\r\nIf-Range: \"x\"\r\n",
+				"Range: bytes=0-3\r\nX-mode: retry\r\n", "If-None-Match: \"x\"\r\n", "If-Modified-Since: Mon, 02 Jan 2006 15:04:05 GMT\r\n", "Cache-Control: no-cache\r\n", ""}).Draw(t, "wf-headers")
+			c.Body = ""
+			c.Connect = "@"
 		}
 		if c.Transport == "tunnel" {
 			// inside a tunnel requests are in origin form
